@@ -108,8 +108,9 @@ def sha256_file(p):
 
 # ---- iotrace helpers ----
 IOTRACE = os.path.join(VERIF, 'native', 'iotrace.so')
-def traced_env(log, match, kill_at=None, fail_from=None, fail_count=0):
+def traced_env(log, match, kill_at=None, fail_from=None, fail_count=0, match2=None):
     e = {'LD_PRELOAD': IOTRACE, 'IOT_LOG': log, 'IOT_MATCH': match}
+    if match2: e['IOT_MATCH2'] = match2
     if kill_at is not None: e['IOT_KILL_AT'] = str(kill_at)
     if fail_from is not None: e['IOT_FAIL_FROM'] = str(fail_from); e['IOT_FAIL_COUNT'] = str(fail_count)
     return e
@@ -123,7 +124,7 @@ def parse_trace(log):
     i = 0
     while i + 17 <= len(b):
         op = chr(b[i]); off, n = struct.unpack_from('<qQ', b, i + 1); i += 17
-        if op in ('W', 'f'):   # records that carry data
+        if op in ('W', 'f', 'X'):   # records that carry data
             out.append((op, off, b[i:i + n])); i += n
         else:
             out.append((op, off, n))
